@@ -62,6 +62,10 @@ func hashForm(obj slip.Object) slip.Object {
 			obj = slip.DoubleFloat(real(to) + 0.0)
 		}
 	case slip.List:
+		if len(to) == 0 {
+			// A list without elements is nil, as it is for eq and equal.
+			return nil
+		}
 		list := make(slip.List, len(to))
 		for i, v := range to {
 			list[i] = hashForm(v)
